@@ -268,6 +268,12 @@ def handle : List String → String
     match setup cache prune blocks ops, k.toNat? with
     | some ((cfg, cfg2, _), base, os), some k => if k == 0 then "malformed" else handleImg cfg cfg2 base os k
     | _, _ => "malformed"
+  | ["flt", cache, prune, blocks, ops, f, k] =>
+    -- a write failure injected at an index flush whose error the code handles by design, then a
+    -- crash: no exact prediction, the Spec's demand is that the property's clauses hold
+    match setup cache prune blocks ops, f.toNat?, k.toNat? with
+    | some _, some f, some k => if f == 0 || k == 0 then "malformed" else "flt=ok"
+    | _, _, _ => "malformed"
   | ["lazy", cache, prune, blocks, ops, k] =>
     -- lazily flushed metadata cache: every 7th commit is written through, and ffldb flushes on its own
     -- after a commit that deletes block files (prune); a power loss after commit k leaves the image of
@@ -297,6 +303,7 @@ def handle : List String → String
   | "torn" :: _ => "malformed"
   | "sync" :: _ => "malformed"
   | "lazy" :: _ => "malformed"
+  | "flt" :: _ => "malformed"
   | "img2" :: _ => "malformed"
   | "par" :: _ => "malformed"
   | _ => "bad-op"
